@@ -237,7 +237,17 @@ def run(ctx):
             if F.parse(text) != tree:
                 ctx.hit("inconclusive:own parser disagrees with the generator tree")
             try:
-                fn = fl.Function.create("f", text, engine)
+                route = i % 4
+                if route == 0:
+                    fn = fl.Function.create("f", text, engine)
+                elif route == 1:
+                    fn = fl.Function("f", text, engine, load=True)
+                elif route == 2:
+                    fn = fl.Function("f", engine=engine)
+                    fn.configure(text)
+                else:
+                    fn = fl.FllImporter().term(f"term: f Function {text}", engine)
+                ctx.hit(f"route:{route}")
             except Exception:
                 mon.expected.pop(text, None)
                 continue  # judged by the monitor
